@@ -276,14 +276,14 @@ pub fn dump_midi_event_meta(bin: &Vec<u8>, pos: &mut usize, info: &mut MidiReade
                 0x51 => { // tempo
                     // mpq = 60000000 / tempo || mpq * tempo = 60000000 || tempo = 60000000 / mpq
                     let mpq = (bin[p+3] as usize) << 16  | (bin[p+4] as usize) << 8 | bin[p+5] as usize;
-                    let tempo = 60000000 / mpq;
+                    let tempo = if mpq == 0 { 0 } else { 60000000 / mpq }; // a tempo event of 0 microseconds has no BPM value
                     format!("Tempo={}", tempo)
                 },
                 0x58 => { // TimeSig
                     let nn = bin[p + 3] as usize;
                     let dd = bin[p + 4] as usize;
                     info.frac = nn;
-                    info.deno = (2i32.pow(dd as u32)) as usize;
+                    info.deno = (2i32.wrapping_pow(dd as u32)) as usize;
                     format!("TimeSig={}/{}", info.frac, info.deno)
                 },
                 _ => { // text
@@ -463,8 +463,9 @@ pub fn dump_midi(bin: &Vec<u8>, flag_stdout: bool) -> String {
             let beat_base = if beat_base == 0 { timebase } else { beat_base }; // for divisor of zero
             let tick = time % beat_base;
             let base = time / beat_base;
-            let beat = base %  info.frac + 1;
-            let mes = base / info.frac + 1;
+            let frac = if info.frac == 0 { 1 } else { info.frac }; // for divisor of zero
+            let beat = base % frac + 1;
+            let mes = base / frac + 1;
             //
             let desc = dump_midi_event(bin, &mut pos, &mut info);
             // log(&format!("{:5}|TIME({:03}:{:03}:{:03}) {}", time, mes, beat, tick, desc));
